@@ -524,17 +524,12 @@ Check C09_shape_top_level_pairs :
   end.
 Print Assumptions C09_shape_top_level_pairs.
 
-(* KEPT, NOT PROVED (still tested on every interpreter tree by the C09P / REPARSE streams, flags S and V): the two
-   hypotheses of C09_parse_keeps_comments as facts about Peg.parse.  What is proved of them is the TREE-level content
-   (C09_shape_comment_texts: no line feed in a comment text; C09_shape_inner_pairs: one return_statement, last, per
-   do_block; the optional second pair of a list_item / record_item is an eol_comment, of a do_statement / statement a
-   comment).  Missing for the ITEM-level predicates: (1) the induction over PegToItems.conv that transports the tree
-   facts to every nested item (item_all shape_here (conv ..)); (the conjunct "a do_statement that starts with a
-   comment has no second comment", which is not a rule-shape fact — kids_spec admits [comment; comment] — but a semantic
-   one: `comment` runs to the line break, so the optional `WHITESPACE* ~ comment` cannot match after it, is proved at
-   tree level below: C09_shape_do_statement);
-   (2) forest_view_ok: that conv reads EVERY comment / eol_comment pair needs the inner-pair shapes of all 30
-   structural rules (list, record, lambda, conditional, call_list, ...), of which six are proved here. *)
+(* The two hypotheses of C09_parse_keeps_comments as facts about Peg.parse.  C09_shape_items_full is PROVED below
+   (C09_shape_items: the tree-level facts C09_shape_comment_texts / C09_shape_inner_pairs / C09_shape_do_statement carried
+   through PegToItems.conv to every nested item, proofs/PegShapeItems.v).  C09_view_items_full is KEPT, NOT PROVED (still
+   tested on every interpreter tree by the C09P / REPARSE streams, flag V): that conv reads EVERY comment / eol_comment
+   pair needs the inner-pair shapes of all ~30 structural rules (list, record, lambda, conditional, call_list, ...), of
+   which six are proved here, and an induction of the size of conv_shape. *)
 Definition C09_shape_items_full : Prop := forall fuel text s',
   Peg.parse blots_grammar fuel PG_input text = Peg.Ok s' -> forest_shape_ok text (rev (out s')) = true.
 Definition C09_view_items_full : Prop := forall fuel text s',
@@ -585,3 +580,63 @@ Check C09_shape_do_statement : forall fuel text s',
   Peg.parse blots_grammar fuel PG_input text = Peg.Ok s' ->
   forest_all grule text C_do_statement (rev (out s')).
 Print Assumptions C09_shape_do_statement.
+
+(* forest_shape_ok — hypothesis of C09_parse_keeps_comments, tested on every tree until now — holds of EVERY result of
+   Peg.parse on the regenerated grammar, for every text and fuel *)
+Require Import Blots.proofs.PegShapeItems Blots.proofs.PegShapeCompose.
+Theorem C09_shape_items : C09_shape_items_full.
+Proof. exact parse_forest_shape_ok. Qed.
+Check C09_shape_items : C09_shape_items_full.
+Check C09_shape_items : forall fuel text s',
+  Peg.parse blots_grammar fuel PG_input text = Peg.Ok s' -> forest_shape_ok text (rev (out s')) = true.
+Print Assumptions C09_shape_items.
+
+(* (a') parser half from the TEXT, shape hypothesis discharged: the comment / eol_comment pairs of the tree the PEG model
+   builds = the comments of the commented program, given only that the item view reads every comment pair (flag V,
+   tested) and outside the exclusion C09-empty-container *)
+Theorem C09_parse_keeps_comments_text : forall text forest p,
+  parse_program_c text = PCOk forest p ->
+  forest_view_ok text forest = true ->
+  forest_no_empty_container text forest = true ->
+  program_comments p = forest_comments text forest.
+Proof. exact parse_keeps_comments_text. Qed.
+Check C09_parse_keeps_comments_text : forall text forest p,
+  parse_program_c text = PCOk forest p ->
+  forest_view_ok text forest = true ->
+  forest_no_empty_container text forest = true ->
+  program_comments p = forest_comments text forest.
+Print Assumptions C09_parse_keeps_comments_text.
+
+(* (b') text -> emitted text, both drivers, shape and wf_ast discharged *)
+Theorem C09_text_to_text_lib :
+  forall O key_ok, (forall k, key_ok k = true -> neutral (o_record_key O k)) ->
+  forall text forest p mw d,
+  parse_program_c text = PCOk forest p ->
+  forest_view_ok text forest = true -> forest_no_empty_container text forest = true ->
+  Forall (stmt_ok_parsed O key_ok mw) p -> format_lib O mw p = Some d ->
+  scan_comments (render d) = forest_comments text forest.
+Proof. exact text_to_text_lib. Qed.
+Check C09_text_to_text_lib :
+  forall O key_ok, (forall k, key_ok k = true -> neutral (o_record_key O k)) ->
+  forall text forest p mw d,
+  parse_program_c text = PCOk forest p ->
+  forest_view_ok text forest = true -> forest_no_empty_container text forest = true ->
+  Forall (stmt_ok_parsed O key_ok mw) p -> format_lib O mw p = Some d ->
+  scan_comments (render d) = forest_comments text forest.
+Print Assumptions C09_text_to_text_lib.
+Theorem C09_text_to_text_cli :
+  forall O key_ok, (forall k, key_ok k = true -> neutral (o_record_key O k)) ->
+  forall text forest p,
+  parse_program_c text = PCOk forest p ->
+  forest_view_ok text forest = true -> forest_no_empty_container text forest = true ->
+  Forall (stmt_ok_parsed O key_ok None) p ->
+  scan_comments (render (format_cli O p)) = forest_comments text forest.
+Proof. exact text_to_text_cli. Qed.
+Check C09_text_to_text_cli :
+  forall O key_ok, (forall k, key_ok k = true -> neutral (o_record_key O k)) ->
+  forall text forest p,
+  parse_program_c text = PCOk forest p ->
+  forest_view_ok text forest = true -> forest_no_empty_container text forest = true ->
+  Forall (stmt_ok_parsed O key_ok None) p ->
+  scan_comments (render (format_cli O p)) = forest_comments text forest.
+Print Assumptions C09_text_to_text_cli.
